@@ -327,3 +327,30 @@ func VerifH_C06_pairresume() {
 	seq := verifSeq(4, 4)
 	checkShape(ll, gd, []LookupIndex{0}, seq, "pair resume")
 }
+
+// VerifH_C06_nestedfilter: a nested lookup filters glyphs by its own lookup flags and its own mark filtering
+// set, not by those of the contextual lookup that invoked it.  Outer rule: glyph 1 followed by glyph 2 (class
+// based skipping decides what lies between); nested ligature 1 2 -> 10; both lookups have symbolic flags and
+// mark filtering sets; glyphs 4 and 5 are marks belonging to different mark glyph sets.
+func VerifH_C06_nestedfilter() {
+	flagsOf := func(tag string) *LookupMetaInfo {
+		f := LookupFlags(verifU16(tag + ".flags"))
+		verifAssume(f&^(IgnoreMarks|UseMarkFilteringSet) == 0)
+		s := verifU16(tag + ".set")
+		verifAssume(s <= 1)
+		return &LookupMetaInfo{LookupFlags: f, MarkFilteringSet: s}
+	}
+	outerMeta, innerMeta := flagsOf("outer"), flagsOf("inner")
+	outerMeta.LookupType, innerMeta.LookupType = 5, 4
+	gd := &gdef.Table{GlyphClass: classdef.Table{1: 1, 2: 1, 3: 1, 4: 3, 5: 3}, MarkGlyphSets: []coverage.Set{{4: true}, {5: true}}}
+	outer := &SeqContext1{Cov: coverage.Table{1: 0}, Rules: [][]*SeqRule{{{Input: []glyph.ID{2}, Actions: []SeqLookup{{SequenceIndex: 0, LookupListIndex: 1}}}}}}
+	inner := &Gsub4_1{Cov: coverage.Table{1: 0}, Repl: [][]Ligature{{{In: []glyph.ID{2}, Out: 10}}}}
+	ll := LookupList{{Meta: outerMeta, Subtables: []Subtable{outer}}, {Meta: innerMeta, Subtables: []Subtable{inner}}}
+	seq := make([]glyph.Info, 3)
+	for i := range seq {
+		g := glyph.ID(verifU16("gid"))
+		verifAssume(g == 1 || g == 2 || g == 4 || g == 5)
+		seq[i] = glyph.Info{GID: g, Text: []rune{rune('a' + i)}, Advance: 100}
+	}
+	checkShape(ll, gd, []LookupIndex{0}, seq, "nested filter")
+}
